@@ -78,6 +78,15 @@ CHECKS.update({
             'The DKW-closeness clause is statistical and not claimed.'),
 })
 
+CHECKS.update({
+    'C11': ('model_checking', 'exhaustive symbolic path enumeration of select_copula with contract stubs + SMT per path',
+            'Every feasible path of the real select_copula for 2 (3 thorough) symbolic rows and a reduced empirical grid: the result is a constructed Frank/Clayton/Gumbel candidate with the Kendall tau of X and that family\'s calibration, Frank for tau <= 0, refusing candidates skipped, no RNG or uninitialised-memory dependence; the deprecated class method agrees.',
+            'The rank-sum scoring is abstracted (any candidate may win); the family-recovery clause is statistical and not claimed.'),
+    'C14': ('model_checking', 'symbolic execution of to_dict/from_dict on models fitted on symbolic data + SMT leaf equality; finite enumeration for JSON/pickle/dispatch',
+            'For every univariate family and constructor variant (varying and constant symbolic data), the selecting wrapper, the three bivariate families, a Gaussian multivariate with mixed marginals and 4-column vines of the three types: the dict is a fixed point of from_dict/to_dict, the class is preserved, the state read by the query methods is equal; JSON/pickle encodability, generic dispatch and equal sample streams are enumerated on the real code.',
+            "pickle's own fidelity is trusted."),
+})
+
 NOT_APPLICABLE = {}
 
 
